@@ -57,6 +57,19 @@ def concreteAll : List Ty → Bool
 end
 
 mutual
+/-- `Info.numSizes()` (commit 4a72a07): the number of input sizes the type
+consumes in `InstantiateWithSizes`: a struct the sizes of its fields, every
+other type one. -/
+def Ty.numSizes : Ty → Nat
+  | .base _ _ _ _ _ => 1
+  | .elem _ _ _ _ _ _ => 1
+  | .struct _ _ _ _ fs => numSizesAll fs
+def numSizesAll : List Ty → Nat
+  | [] => 0
+  | f :: fs => f.numSizes + numSizesAll fs
+end
+
+mutual
 /-- `Info.InstantiateWithSizes(sizes)`.  Errors: `.count` is "not enought
 sizes for type", `.unsupported` every other returned error ("array element
 type unspecified", "can't specify"), `.panic` a Go run-time panic (nil
@@ -95,19 +108,49 @@ def Ty.inst : Ty → List Nat → Except Err Ty
       match instFields fs sizes 0 with
       | .error e => .error e
       | .ok (fs', total) => .ok (.struct true total n off fs')
-/-- the `for idx := range i.Struct` loop: `sizes` is `sizes[idx:]` (field `idx`
-receives the whole tail, also when it is a struct that reads several entries),
-`acc` is `structBits`. -/
+/-- the `for idx := range i.Struct` loop (since commit 4a72a07): `sizes` is
+`sizes[consumed:]`, the sizes that follow the ones consumed by the members
+before this one; `acc` is `structBits`.  Before the commit member `idx`
+received `sizes[idx:]`, see `instFieldsOld`. -/
 def instFields : List Ty → List Nat → Nat → Except Err (List Ty × Nat)
+  | [], _, acc => .ok ([], acc)
+  | f :: fs, sizes, acc =>
+    match sizes with
+    | [] => .error .count                           -- consumed >= len(sizes)
+    | _ :: _ =>
+      match f.inst sizes with
+      | .error e => .error e
+      | .ok f' =>
+        match instFields fs (sizes.drop f'.numSizes) (acc + f'.bits) with
+        | .error e => .error e
+        | .ok (fs', total) => .ok (f'.setOff acc :: fs', total)
+end
+
+/-! ### The struct loop BEFORE commit 4a72a07 (only for the negation witness
+`C13_old_instantiate_nested_sizes_witness`): member `idx` received `sizes[idx:]`
+also when an earlier member is a struct that had read several entries. -/
+
+mutual
+def Ty.instOld : Ty → List Nat → Except Err Ty
+  | .struct _ _ n off fs, sizes =>
+    match sizes with
+    | [] => .error .count
+    | _ :: _ =>
+      match instFieldsOld fs sizes 0 with
+      | .error e => .error e
+      | .ok (fs', total) => .ok (.struct true total n off fs')
+  | .base tag c bits n off, sizes => (Ty.base tag c bits n off).inst sizes
+  | .elem tag c bits n off el, sizes => (Ty.elem tag c bits n off el).inst sizes
+def instFieldsOld : List Ty → List Nat → Nat → Except Err (List Ty × Nat)
   | [], _, acc => .ok ([], acc)
   | f :: fs, sizes, acc =>
     match sizes with
     | [] => .error .count                           -- idx >= len(sizes)
     | _ :: rest =>
-      match f.inst sizes with
+      match f.instOld sizes with
       | .error e => .error e
       | .ok f' =>
-        match instFields fs rest (acc + f'.bits) with
+        match instFieldsOld fs rest (acc + f'.bits) with
         | .error e => .error e
         | .ok (fs', total) => .ok (f'.setOff acc :: fs', total)
 end
